@@ -8,6 +8,7 @@
 -/
 import Golib.Prim.Codec
 import Golib.HMap.Plain
+import Golib.HMap.Linked
 
 namespace HMap
 open Prim
@@ -20,6 +21,32 @@ def pairsToBytes (es : List (Int × Int)) : Bytes := encDecimal es.length ++ enc
 
 def pairsFromBytes : P (List (Int × Int)) :=
   P.bind decDecimal (fun n => if n < 0 then .pure [] else decMany decPair n.toNat)
+
+/-- Int/LongFloatLinkedMap: `WriteDecimal(key); WriteFloat(value)` — the value is the 4-byte big-endian IEEE-754 pattern -/
+def encPairF (e : Int × Int) : Bytes := encDecimal e.1 ++ beN 4 e.2.toNat
+
+def decPairF : P (Int × Int) := P.bind decDecimal (fun k => P.bind (rdU 4) (fun b => .pure (k, (b : Int))))
+
+def pairsToBytesF (es : List (Int × Int)) : Bytes := encDecimal es.length ++ encMany encPairF es
+
+def pairsFromBytesF : P (List (Int × Int)) :=
+  P.bind decDecimal (fun n => if n < 0 then .pure [] else decMany decPairF n.toNat)
+
+namespace LMap
+variable (hash : Int → Nat) (thr : Nat → Nat)
+
+/-- `ToBytes` of IntIntLinkedMap / LongLongLinkedMap (`float := false`) and Int/LongFloatLinkedMap (`float := true`):
+    the count, then every entry in iteration order -/
+def toBytes (float : Bool) (m : LMap Int Int) : Bytes :=
+  if float then pairsToBytesF (m.entries hash) else pairsToBytes (m.entries hash)
+
+/-- `ToObject`: decode and `Put` (mode last) every pair into `m` -/
+def toObject (float : Bool) (d : Desc Int Int) (m : LMap Int Int) (bs : Bytes) : LMap Int Int :=
+  match P.run (if float then pairsFromBytesF else pairsFromBytes) bs with
+  | some (l, _) => l.foldl (fun acc e => (acc.put hash thr d .last e.1 e.2).1) m
+  | none => m
+
+end LMap
 
 namespace PMap
 variable (hash : Int → Nat) (thr : Nat → Nat)
